@@ -103,6 +103,23 @@ def generate(rng, tier):
     files.update(leftovers)
     history = rng.chance(20) and not linked and not any(isinstance(x, dict) and "hardlink" in x for x in files.values())
     cwd, root_arg = rng.choice([(".", t.root), (t.base, os.path.relpath(t.root, t.base)), (".", "$ROOT/" + t.root)])
+    # a second input on the same command line that reaches one of the files again: a twin root next to the root
+    # (src/main.rs + src/lib.rs) declaring the same module file, or the root simply named twice
+    extra_roots = []
+    k = rng.below(100)
+    if k < 14:
+        rd = os.path.dirname(t.root)
+        sh, tw = os.path.join(rd, "p_twsh.rs"), os.path.join(rd, "twin_root.rs")
+        if sh not in files and tw not in files:
+            files[sh] = body(rng)
+            files[tw] = "mod p_twsh;\n" + gen_rust.unformatted(rng, 1)
+            rt = files[t.root]
+            files[t.root] = ("\ufeff" if rt.startswith("\ufeff") else "") + "mod p_twsh;\n" + rt.lstrip("\ufeff")
+            srcs += [sh, tw]
+            extra_roots = [os.path.join(os.path.dirname(root_arg), "twin_root.rs")]
+    elif k < 18:
+        extra_roots = [root_arg]
+    twin_first = bool(extra_roots) and rng.chance(40)
     extra_args = rng.choice([[], [], ["-q"], ["--config", "max_width=%d" % rng.choice([60, 80, 100])]])
     return {
         "world": {"files": files},
@@ -114,11 +131,15 @@ def generate(rng, tier):
         "root_arg": root_arg,
         "extra_args": extra_args,
         "hashseed": rng.below(1 << 32), "respelled": respelled, "linked": linked, "tier": tier,
+        "extra_roots": extra_roots, "twin_first": twin_first,
     }
 
 
 def _inv(case, backup, plan=None):
-    argv = (["--backup"] if backup else []) + list(case["extra_args"]) + [case["root_arg"]]
+    roots = [case["root_arg"]] + list(case.get("extra_roots") or [])
+    if case.get("twin_first"):
+        roots.reverse()
+    argv = (["--backup"] if backup else []) + list(case["extra_args"]) + roots
     return {"tool": "rustfmt", "argv": argv, "cwd": case["cwd"], "hashseed": case["hashseed"], "plan": plan or []}
 
 
